@@ -5,7 +5,8 @@
 EXTENDS Markdown, Json
 
 CONSTANTS MaxSpecial,   \* special (non-plain) cells per enumerated table
-          FullCells     \* tables with at most this many cells are enumerated over the full alphabet
+          FullCells,    \* tables with at most this many cells are enumerated over the full alphabet
+          MaxRepeat     \* headings per document of the repeated-content family
 
 \* ---------------------------------------------------------------- tables
 SpecialKinds == {"pipe", "nl", "empty", "padded", "uni"}
@@ -65,6 +66,29 @@ DocTable == [nr |-> 2, nc |-> 3, off |-> 0, hm |-> "first", hdr |-> TRUE,
 DocList == <<[d |-> 0, k |-> "u", w |-> "i1"], [d |-> 1, k |-> "u", w |-> "i2"], [d |-> 2, k |-> "u", w |-> "i3"],
              [d |-> 0, k |-> "u", w |-> "i4"]>>
 
+\* ---------------------------------------------------------------- repeated content
+\* <<"R", hs, sep, toc>>: a document of 2..MaxRepeat headings <<level, word>> over two words in which some
+\* heading text occurs again - at the same or another level, next to its twin or apart, under the same
+\* or another parent; sep = "para": a paragraph after every heading.
+\* <<"RX", n, toc>>: a paragraph / list item / table cell / later heading that repeats a heading's text.
+HOpts == {<<lv, w>> : lv \in {1, 2}, w \in {"rA", "rB"}}
+HasRepeat(hs) == \E a, b \in 1..Len(hs) : a # b /\ hs[a][2] = hs[b][2]
+CasesR == {<<"R", hs, sp, toc>> : hs \in {x \in UNION {[1..n -> HOpts] : n \in 2..MaxRepeat} : HasRepeat(x)},
+                                  sp \in {"none", "para"}, toc \in BOOLEAN}
+RepEls(hs, sp) ==
+    IF sp = "none" THEN [x \in 1..Len(hs) |-> H(hs[x][1], hs[x][2])]
+    ELSE [x \in 1..(2 * Len(hs)) |-> IF x % 2 = 1 THEN H(hs[(x + 1) \div 2][1], hs[(x + 1) \div 2][2])
+                                                 ELSE P("p" \o ToString(x \div 2))]
+RepTable == [nr |-> 2, nc |-> 2, off |-> 0, hm |-> "first", hdr |-> TRUE, kind |-> <<<<"plain", "rep">>, <<"plain", "plain">>>>, m |-> NoMerge]
+RItem(d, kk, w) == [d |-> d, k |-> kk, w |-> w]
+RXEls(n) ==
+    CASE n = 1 -> <<H(2, "rA"), P("rA")>>
+      [] n = 2 -> <<H(2, "rA"), [t |-> "list", items |-> <<RItem(0, "u", "rA"), RItem(0, "u", "i2")>>]>>
+      [] n = 3 -> <<H(2, "rA"), P("p1"), [t |-> "table", tb |-> RepTable]>>
+      [] n = 4 -> <<H(1, "rA"), P("p1"), H(2, "rB"), P("rA"), H(3, "rA"), [t |-> "list", items |-> <<RItem(0, "o", "rB"), RItem(1, "u", "rA")>>]>>
+      [] n = 5 -> <<[t |-> "list", items |-> <<RItem(0, "u", "rA")>>], H(2, "rA"), P("rA"), H(2, "rA")>>
+CasesRX == {<<"RX", n, toc>> : n \in 1..5, toc \in BOOLEAN}
+
 \* ---------------------------------------------------------------- block sequences
 \* <<"S", kinds, off>>: a document that is a sequence of 2..4 blocks of kinds T(able) H(eading) L(ist)
 \* P(aragraph) with at least one table: tables next to each other (two and three in a row) and next to
@@ -91,16 +115,19 @@ McExpand(d) ==
     CASE d[1] \in {"T", "F"} -> [els |-> <<[t |-> "table", tb |-> TableOf(d)]>>, off |-> 0, mx |-> 6, meta |-> FALSE, toc |-> FALSE]
       [] d[1] = "H" -> [els |-> <<H(d[2], "hX"), P("pX")>>, off |-> d[3], mx |-> d[4], meta |-> FALSE, toc |-> FALSE]
       [] d[1] = "L" -> [els |-> <<[t |-> "list", items |-> ItemsOf(d[2], d[3])]>>, off |-> 0, mx |-> 6, meta |-> FALSE, toc |-> FALSE]
+      [] d[1] = "R" -> [els |-> RepEls(d[2], d[3]), off |-> 0, mx |-> 6, meta |-> FALSE, toc |-> d[4]]
+      [] d[1] = "RX" -> [els |-> RXEls(d[2]), off |-> 0, mx |-> 6, meta |-> FALSE, toc |-> d[3]]
       [] d[1] = "S" -> [els |-> [x \in 1..Len(d[2]) |-> SeqEl(d[2], x)], off |-> d[3], mx |-> 6, meta |-> FALSE, toc |-> FALSE]
       [] d[1] = "D" -> [els |-> <<H(1, "hA"), P("pA"), H(2, "hB"), [t |-> "list", items |-> DocList], P("pB"),
                                   [t |-> "table", tb |-> DocTable], H(3, "hC"), P("pC")>>,
                         off |-> d[2], mx |-> d[3], meta |-> d[4], toc |-> d[5]]
 
-AllCases == CasesS \cup CasesTOk \cup CasesTM \cup CasesF \cup CasesH \cup CasesLOk \cup CasesD
+AllCases == CasesR \cup CasesRX \cup CasesS \cup CasesTOk \cup CasesTM \cup CasesF \cup CasesH \cup CasesLOk \cup CasesD
 TableCases == CasesTOk \cup CasesTM
 \* the negative controls only need small tables
 ImplCases == {x \in TableCases : x[2] <= 2 /\ x[3] <= 2}
 SeqCases == {x \in CasesS : x[3] = 0}
+RepCases == {x \in CasesR : x[4] = FALSE}
 
 \* ---------------------------------------------------------------- emission
 Repeat(s, n) == FoldLeft(LAMBDA a, b : a \o s, "", [x \in 1..n |-> x])
